@@ -717,14 +717,16 @@ Fixpoint map_num (fn : Z -> Z -> Z * Z) (i : item) {struct i} : item :=
    except that Numeric Value (VR DS) survives only as its decimal string of at most 16 characters: the number
    read back is `trunc x` (external: pydicom's DS formatting; any function here).  FD is exact. *)
 Definition encode (trunc : Z -> Z) : item -> item := map_num (fun a b => (trunc a, b)).
-(* sr.Measurement / NumContentItem.__init__: Numeric Value is always written; Floating Point Value is written
-   (with the same number) iff the value was given as a Python float: `fl x` *)
+(* sr.Measurement / NumContentItem.__init__: Numeric Value is always written (the digits of an int of at most 16
+   characters, else pydicom's rounded formatting); Floating Point Value is written (with the same number, i.e.
+   float(value)) iff `fl x`: the value was given as a Python float, or as an int whose decimal string exceeds 16
+   characters (fix D111) - exactly the values whose DS string had to be rounded *)
 Definition with_fp (fl : Z -> bool) : item -> item := map_num (fun a b => (a, if fl a then fp_code a else b)).
 (* a finite description of trunc / fl, as the correspondence run passes them *)
 Definition tbl_fun (tbl : list (Z * Z)) (x : Z) : Z :=
   match find (fun p => fst p =? x) tbl with Some p => snd p | None => x end.
-(* accessors of every group of a report built from records whose measurement values `floats` were given as
-   Python floats, after the report went through DICOM encoding with DS behaviour `tbl` ([] : not encoded) *)
+(* accessors of every group of a report built from records whose measurement values `floats` get Floating Point
+   Value from the constructor (floats, long ints), after the report went through DICOM encoding with DS behaviour `tbl` ([] : not encoded) *)
 Definition run_accessors_enc (floats : list Z) (tbl : list (Z * Z)) (pre : list item) (gs : list group)
                              (mname ename : option Z) : val :=
   run_tree_accessors (encode (tbl_fun tbl) (with_fp (fun x => mem x floats) (report pre gs))) mname ename.
